@@ -137,7 +137,14 @@ fn fe_program_inner(src: &str, do_compile: bool, t0: Instant) -> String {
                 dbg.contains("Unsigned(Unspecified)") || dbg.contains("Signed(Unspecified)")
             })
             .unwrap_or(false);
-            let stage = if unspecified { "compile[unspecified-literal-type-left-by-check]" } else { "compile" };
+            let empty_join = catch(|| has_join_of_two_empty_arrays(&typed)).unwrap_or(false);
+            let stage = if unspecified {
+                "compile[unspecified-literal-type-left-by-check]"
+            } else if empty_join {
+                "compile[join-call-on-two-empty-arrays]"
+            } else {
+                "compile"
+            };
             return format!("P {stage} {}", one_line(&p));
         }
         Ok(Err(es)) => {
@@ -154,6 +161,38 @@ fn fe_program_inner(src: &str, do_compile: bool, t0: Instant) -> String {
         Ok(Ok(n)) => n,
     };
     format!("O compiled {r}")
+}
+
+/// Cause attribution for known finding KF-C07-3: does the type-checked program call the built-in
+/// `join` (as an expression, not as the head of a for loop) on two arrays of literal size 0?
+fn has_join_of_two_empty_arrays(typed: &TypedProgram) -> bool {
+    use garble_lang::ast::{Accessor, BuiltInFnCall, ExprEnum, StmtEnum, VariantExprEnum};
+    use garble_lang::{TypedExpr, TypedStmt};
+    fn stmts(ss: &[TypedStmt]) -> bool {
+        ss.iter().any(|s| match &s.inner {
+            StmtEnum::Let(_, _, e) | StmtEnum::LetMut(_, _, e) | StmtEnum::Expr(e) => expr(e),
+            StmtEnum::VarAssign(_, accs, e) => expr(e) || accs.iter().any(|(a, _)| matches!(a, Accessor::ArrayAccess { index, .. } if expr(index))),
+            StmtEnum::ForEachLoop(_, e, body) => expr(e) || stmts(body),
+            StmtEnum::JoinLoop(_, _, (a, b), body) => expr(a) || expr(b) || stmts(body),
+        })
+    }
+    fn expr(e: &TypedExpr) -> bool {
+        match &e.inner {
+            ExprEnum::BuiltInFnCall(BuiltInFnCall::Join { args, .. }) => {
+                (args.len() == 2 && args.iter().all(|a| matches!(a.ty, Type::Array(_, 0)))) || args.iter().any(expr)
+            }
+            ExprEnum::True | ExprEnum::False | ExprEnum::NumUnsigned(..) | ExprEnum::NumSigned(..) | ExprEnum::Identifier(_) | ExprEnum::Range(..) => false,
+            ExprEnum::ArrayLiteral(es) | ExprEnum::TupleLiteral(es) | ExprEnum::FnCall(_, es) => es.iter().any(expr),
+            ExprEnum::ArrayRepeatLiteral(x, _) | ExprEnum::ArrayRepeatLiteralConst(x, _) | ExprEnum::TupleAccess(x, _) | ExprEnum::StructAccess(x, _) | ExprEnum::UnaryOp(_, x) | ExprEnum::Cast(_, x) => expr(x),
+            ExprEnum::ArrayAccess(a, b) | ExprEnum::Op(_, a, b) => expr(a) || expr(b),
+            ExprEnum::StructLiteral(_, fs) => fs.iter().any(|(_, x)| expr(x)),
+            ExprEnum::EnumLiteral(_, _, v) => matches!(v, VariantExprEnum::Tuple(es) if es.iter().any(expr)),
+            ExprEnum::Match(x, arms) => expr(x) || arms.iter().any(|(_, b)| expr(b)),
+            ExprEnum::Block(ss) => stmts(ss),
+            ExprEnum::If(c, t, f) => expr(c) || expr(t) || expr(f),
+        }
+    }
+    typed.fn_defs.values().any(|f| stmts(&f.body))
 }
 
 /// Programs that name constants of other parties cannot be compiled without them (the attempt above
@@ -730,6 +769,10 @@ impl St {
             Out::Panic(stage, msg) if stage == "compile[unspecified-literal-type-left-by-check]" && has_suffix_free_number(inp.judged_text()) => {
                 self.finding("panic:compile:program-accepted-with-a-number-literal-of-unspecified-type".into(), inp, msg.clone())
             }
+            // known finding KF-C07-3: the value of `join(a, b)` on two arrays of size 0 has the type
+            // `[_; 0 + 0 - 1]`, whose size wraps around; keyed on cause (reported by the worker from
+            // the type-checked program)
+            Out::Panic(stage, msg) if stage == "compile[join-call-on-two-empty-arrays]" => self.finding("panic:compile:join-call-on-two-arrays-of-size-0".into(), inp, msg.clone()),
             Out::Panic(stage, msg) => self.finding(format!("panic:{stage}:{}", panic_signature(msg)), inp, msg.clone()),
             Out::Bad(stage, w) => self.finding(format!("bad-error:{stage}:{}", w.split(' ').next().unwrap_or("")), inp, w.clone()),
             Out::Harness(w) => self.inconclusive.inc(&format!("harness: {w}")),
